@@ -376,7 +376,10 @@ fn assignment_violation(data: &[Vec<f64>], centroids: &[Vec<f64>], exact: bool, 
     if a.counts.iter().sum::<usize>() != n {
         return Some(("assignment_counts".into(), "counts do not sum to n".into()));
     }
-    let tol = 1e-9 * (own.abs() + exh.abs()) + 1e-300;
+    // rounding of the cached means (sum / count) perturbs every term by ~eps*scale: absolute error
+    // <= 2 e sqrt(n D) + n e^2 with e ~ eps*scale, on top of the relative part
+    let sc = scale.max(max_abs(centroids));
+    let tol = 1e-9 * (own.abs() + exh.abs()) + 1e-13 * sc * ((n as f64) * (own.abs() + exh.abs())).sqrt() + (n as f64) * 1e-26 * sc * sc + 1e-300;
     if !((a.dist - own).abs() <= tol) || !((a.dist - exh).abs() <= tol + 1e-8 * exh) {
         return Some((
             "assignment_distortion".into(),
@@ -824,12 +827,15 @@ fn main() {
     check_assignment(&mut out, &line, &[vec![3.0], vec![1.0e6], vec![-1.0e6]], true, "corpus", "far");
     let grid: Vec<Vec<f64>> = (0..16).map(|i| vec![(i % 4) as f64, (i / 4) as f64]).collect();
     check_assignment(&mut out, &grid, &[vec![0.5, 0.5], vec![2.5, 0.5], vec![0.5, 2.5], vec![2.5, 2.5], vec![1.5, 1.5]], true, "corpus", "tie");
+    // duplicates only: leaf sum = 3*x is rounded, so the returned distortion is ~1e-35 rather than 0 (oracle tolerance)
+    let dup = vec![vec![0.03772103298384219, 0.04267627805640927, 0.011702933137788214]; 3];
+    check_assignment(&mut out, &dup, &[dup[0].clone()], false, "corpus", "duplicates");
     corr_tree_and_assign(&mut out, &mut rng, &iris, Fam::Continuous, 2);
     corr_tree_and_assign(&mut out, &mut rng, &grid, Fam::Lattice, 3);
     corr_fit_case(&mut out, &iris, 2, 100);
 
     // ---- correspondence ----
-    let (n_prune, n_tree, n_fit) = if a.thorough { (300, 120, 120) } else { (80, 36, 40) };
+    let (n_prune, n_tree, n_fit) = if a.thorough { (300, 150, 200) } else { (80, 48, 80) };
     for _ in 0..n_prune {
         corr_prune_case(&mut out, &mut rng);
     }
@@ -857,7 +863,7 @@ fn main() {
     }
 
     // ---- search: assignment step against exhaustive search ----
-    let n_assign = if a.thorough { 40000 } else { 5000 };
+    let n_assign = if a.thorough { 60000 } else { 12000 };
     for i in 0..n_assign {
         let fam = pick_family(&mut rng);
         let n = match rng.below(10) {
@@ -908,7 +914,7 @@ fn main() {
     }
 
     // ---- search: fit bookkeeping and predict ----
-    let n_fitsearch = if a.thorough { 6000 } else { 700 };
+    let n_fitsearch = if a.thorough { 10000 } else { 2000 };
     for _ in 0..n_fitsearch {
         let fam = pick_family(&mut rng);
         let k = rng.usize_in(2, 8);
